@@ -597,7 +597,9 @@ pub fn run_c04(cfg: &Cfg, out: &mut Out) -> String {
         let mut a = gen_tree_min(&mut r, &gc, min_nodes);
         c04_bias(&mut r, &mut a);
         let avail = gen_available(&mut r);
-        let e = *r.pick(&[-3, -2, -1, 1, 2, 3, 4, 5, 6, 7, 8]);
+        // one case in ten at an extreme factor: lengths far below every absolute constant in the code (f32::EPSILON,
+        // the grid thresholds) or far above them
+        let e = if r.chance(1, 10) { *r.pick(&[-40, -30, -24, 24, 30]) } else { *r.pick(&[-3, -2, -1, 1, 2, 3, 4, 5, 6, 7, 8]) };
         c04_one(out, &a, avail, e);
     }
     String::new()
